@@ -89,6 +89,10 @@ class Gen(object):
             w["clear"] = 0
         if not any(w[k] for k in ("add_page", "add_pages", "add_links", "batch")):
             w["add_page"] = 3
+        # swarm: in some runs callers abandon iterator requests half-way (queries, rule installations)
+        self.abandon = prop not in ("C16", "C18") and rng.random() < 0.35
+        if self.abandon:
+            w["abandon_query"] = rng.choice([0.5, 1, 2])
         self.weights = w
         self.reuse = rng.choice([0.5, 0.7, 0.85, 0.95])
         self.str_args = self.profile in ("hyphe-ascii", "adversarial-text") and rng.random() < 0.2
@@ -125,6 +129,8 @@ class Gen(object):
         self.input_faults = prop in ("C01", "C02", "C03", "C04", "C05", "C06", "C07", "C08", "C12", "C13", "C19", "C20", "C11", "C15") and rng.random() < 0.3
         self.bulk = prop in ("C03", "C07", "C08", "C10", "C15", "C18", "C20") and rng.random() < ((0.01 if tier == "quick" else 0.03) if prop != "C18" else 0.06)
         self.created_prefixes = []  # prefixes named in webentity ops so far (for refs)
+        self.queue = []  # ops to emit next (follow-ups of an abandoned request)
+        self.link_ends = []  # LRUs named as link ends so far
 
     # ------------------------------------------------------------------
     def anchor(self):
@@ -171,6 +177,8 @@ class Gen(object):
     # ------------------------------------------------------------------
     def op(self):
         r = self.rng
+        if self.queue and len(self.weights) > 1:  # (a one-kind mix is a caller asking for that kind)
+            return self.queue.pop(0)
         k = wchoice(r, self.weights)
         if k == "add_page":
             return {"op": k, "lru": self.e(self.lru()), "crawled": r.random() < 0.4}
@@ -228,6 +236,7 @@ class Gen(object):
                 if r.random() < 0.25:
                     links.append([self.e(s), self.e(t)])
             o = {"op": k, "links": links}
+            self.link_ends.extend(dec(x) if x[:2] != "u:" else x[2:].encode(self.encoding) for pair in links[:3] for x in pair)
             if self.input_faults and r.random() < 0.1:
                 o["fault_at"] = r.randrange(len(links))
             return o
@@ -342,8 +351,42 @@ class Gen(object):
             if a is None:
                 return {"op": "add_page", "lru": enc(self.lru()), "crawled": False}
             o = {"op": k, "anchor": enc(a), "rule": r.choice(["domain", "subdomain", "path1", "path2", "path1"])}
-            if r.random() < 0.3:
+            if self.abandon and r.random() < 0.3:
+                o["abandon_after"] = r.randint(1, 6)
+                o["how"] = r.choice(["close", "drop"])
+                if r.random() < 0.5:
+                    o["hold_sweep"] = True
+            elif r.random() < 0.3:
                 o["drive"] = "until_done"
+            return o
+        if k == "abandon_query":
+            from .ops import QUERY_ITERS
+
+            kind = r.choice(QUERY_ITERS + (("pagelinks", "outlinks", "inlinks", "most_linked") * 2 if self.prop in ("C07", "C08", "C10", "C20") else ()))
+            o = {"op": k, "kind": kind, "steps": r.choice([1, 1, 2, 3, 5, 8]), "how": r.choice(["close", "drop"]), "flag": r.random() < 0.5}
+            if not kind.startswith("net"):
+                o["ref"] = enc(self.ref())
+            if r.random() < 0.7:
+                # what the abandoned request may have left in the object is not repaired by an
+                # observation sweep before the next request arrives
+                o["hold_sweep"] = True
+                if r.random() < 0.7:
+                    # ... and that request moves a webentity boundary
+                    x = r.random()
+                    p = self.prefix()
+                    if self.link_ends and r.random() < 0.6:
+                        # a folder above a linked page (below the host level when there is one)
+                        sp = stem_prefixes(r.choice(self.link_ends))
+                        p = r.choice(sp[-3:-1] or sp)
+                    if x < 0.5:
+                        self.created_prefixes.append(p)
+                        self.queue.append({"op": "create_we", "prefixes": [enc(p)]})
+                    elif x < 0.7 and self.created_prefixes:
+                        self.queue.append({"op": "add_prefix", "prefix": enc(p), "ref": enc(self.ref())})
+                    elif x < 0.85 and self.created_prefixes:
+                        self.queue.append({"op": "delete_we", "ref": enc(self.ref())})
+                    elif self.created_prefixes:
+                        self.queue.append({"op": "remove_prefix", "prefix": enc(self.ref()), "mode": "right"})
             return o
         if k == "clear":
             rules = []
